@@ -82,7 +82,11 @@ class VectorContainer:
     def _locate_period_in_span_fallback(period: Hashable, span: np.ndarray) -> int:
         """Fallback (static) location method, should other `span`-indexing methods fail."""
         # Convert `span` to a NumPy array of type `object` and locate matches
-        locations = np.asarray(np.asarray(span, dtype=object) == period).nonzero()
+        # (wrap `period` as a single object, so that a tuple label is compared
+        # as a label rather than broadcast against the elements of `span`)
+        label = np.empty((), dtype=object)
+        label[()] = period
+        locations = np.asarray(np.asarray(span, dtype=object) == label).nonzero()
 
         # For now(?), only support one-dimensional array-likes
         assert len(locations) == 1
